@@ -290,7 +290,8 @@ def _final(s, hid):
             "store": s.store_keys(hid), "stuck": bool(stuck), "idle": row["idle"], "live_loops": s.live_loops(hid)}
 
 
-def crash_cases(prog, workdir, order="fifo", seed=0, ext=(), horizon_ms=60000, idle_timeout=1000.0, ks=None):
+def crash_cases(prog, workdir, order="fifo", seed=0, ext=(), horizon_ms=60000, idle_timeout=1000.0, ks=None,
+                cancel_after=None):
     """Reference run to the end, then for every k: stop the process right after the k-th persisted tick, start a
     brand-new server on the same SQLite file, let PersistenceDecorator._on_server_start resume, run to the end."""
     import os
@@ -304,6 +305,12 @@ def crash_cases(prog, workdir, order="fifo", seed=0, ext=(), horizon_ms=60000, i
         for (ty, uid, k) in ext:
             s.drain()
             s.send("h1", ty, uid, k)
+        if cancel_after is not None:
+            for _ in range(cancel_after):
+                g = s.rig.open_gates()
+                if g:
+                    s.release(g[0])
+            s.cancel("h1")
         s.run_to_end(horizon_ms)
         ref = _final(s, "h1")
         nticks = s.nticks
@@ -323,6 +330,13 @@ def crash_cases(prog, workdir, order="fifo", seed=0, ext=(), horizon_ms=60000, i
                 s.drain()
                 if not s.crashed:
                     s.send("h1", ty, uid, kk)
+            if cancel_after is not None and not s.crashed:
+                for _ in range(cancel_after):
+                    g = s.rig.open_gates()
+                    if g and not s.crashed:
+                        s.release(g[0])
+                if not s.crashed:
+                    s.cancel("h1")
             s.run_to_end(horizon_ms)
             hs = dict(s.handlers)
             last = [r["tick"] for r in s.trace if r["e"] == "tick"][-1]
